@@ -26,6 +26,43 @@ CHECK_DEADLOCK FALSE
             v.spec_violation("Alloc", r)
 
 
+def apalache_inductive(v, wd):
+    """Apalache (symbolic): LiveDisjoint / LiveAligned / LiveInPage of AllocSafety are inductive for arbitrary integer
+    addresses, sizes, alignments, page numbers and page sizes (TLC and the traces check small ones). An additional
+    argument on the contract: a counterexample is a violation of the specification, a time-out only noted."""
+    import shutil
+    import subprocess
+    import time
+    ad = os.path.join(wd, "apalache")
+    shutil.rmtree(ad, ignore_errors=True)
+    os.makedirs(ad)
+    for f in ("AllocSafety.tla", "Ind_AllocSafety.tla"):
+        shutil.copy(os.path.join(vlib.SPECS, f), ad)
+    steps = [("base", ["--cinit=ConstInit", "--init=AInit", "--next=IndNext", "--inv=IndInv", "--length=0"]),
+             ("step", ["--cinit=ConstInit", "--init=IndInit", "--next=IndNext", "--inv=IndInv", "--length=1"])]
+    res = {}
+    for name, args in steps:
+        t0 = time.time()
+        try:
+            p = subprocess.run(["timeout", "1500", "apalache-mc", "check", f"--out-dir={ad}/out_{name}"] + args + ["Ind_AllocSafety.tla"],
+                               cwd=ad, capture_output=True, text=True)
+            out = p.stdout + p.stderr
+        except OSError as e:
+            out = str(e)
+        if "EXITCODE: OK" in out and "NoError" in out:
+            res[name] = "holds"
+        elif "EXITCODE: ERROR (12)" in out or "outcome is: Error" in out:
+            res[name] = "counterexample"
+        else:
+            res[name] = "inconclusive"
+        log(f"[apalache] AllocSafety inductive invariant, {name}: {res[name]} ({time.time() - t0:.0f}s)")
+    v.cov["apalache_inductive_invariant"] = {"module": "Ind_AllocSafety", "invariant": "LiveDisjoint /\\ LiveAligned /\\ LiveInPage", **res,
+                                             "bound": "<= 6 live regions and <= 4 pages in the pre-state; all integers unbounded"}
+    if "counterexample" in res.values():
+        v.add_violation("Apalache: the safety invariants of AllocSafety are not inductive (counterexample under work/C15/apalache)",
+                        {"apalache": res}, {"suite": "spec", "field": "apalache"})
+
+
 def gen_replay_alloc(v, wd, tier):
     # 6 operations would be ~40 GB of sequences: the thorough tier widens the size / alignment menu instead
     runs = [(16, "Sizes = {1, 3, 5, 6, 14, 15, 16} Aligns = {1, 2}")]
@@ -141,6 +178,8 @@ def c15(tier):
     vlib.build_harness()
     wd = workdir("C15")
     mc_alloc(v, wd, tier)
+    if tier == "thorough":
+        apalache_inductive(v, wd)
     maxtime(v, wd, tier)
     c_fes.mc_fes(v, wd, "quick")
     gen_replay_alloc(v, wd, tier)
